@@ -191,6 +191,13 @@ def scenarios():
             {"app": 0, "unit": 2, "text": first}, {"app": 0, "unit": 2, "text": second, "after_done": 0}],
             "requests": [req(0, "recv", tp, 1, 0, [0] if tp == "K" else None), req(0, "recv", tp, 1, 2, [1] if tp == "K" else None)],
             "streams": [{"key": [1, 0, "recv"], "responses": (M(2) if tp == "M" else K(2, [1, 2]))}]})
+    # 21. the link layer reports an error (for a request of some other socket that timed out) between ordinary responses: it is
+    #     reported once, and the other responses are matched as if it had not been there
+    S.append({"name": "error-response-between-ok-responses", "apps": [{"app": 0, "unit": 2, "text":
+              recv_m(0, 2) + recv_k(2, 3, [0], socket=1) + wall(0, 2) + wall(2, 1)}],
+              "requests": [req(0, "recv", "M", 2, 0), req(0, "recv", "K", 1, 2, [0], socket=1)],
+              "streams": [{"key": [1, 0, "recv"], "responses": M(2)}, {"key": [1, 1, "recv"], "responses": K(1, [2])},
+                          {"key": [1, 5, "recv"], "responses": [{"kind": "E"}]}]})
     return S
 
 
